@@ -84,6 +84,28 @@ def check_bm(ctx, k):
     ctx.expect(paths, ret=2, abort=2)
 
 
+def check_small(ctx, k):
+    """backend whose is_in_same_sandbox is a coarse 4 GiB window while only 64 KiB are sandbox memory:
+    the entry points must use the exact membership test"""
+    base = ctx.sandbox_base(32)
+    mem = 1 << 16
+    addr = ctx.sym("addr", 64)
+    inside = ctx.in_region(addr, base, mem)
+    args = [base, addr]
+    if k == "k_small_assignvol":
+        cell = ctx.sym("cell", 64)
+        ctx.assume(z3.UGE(cell, base), z3.ULE(cell - base, BV(mem - 4, 64)))
+        args = [base, cell, addr]
+    paths = ctx.run(k, args)
+    for q in paths:
+        if q.status == "ret":
+            ctx.require(q, inside, "accepted only when the address lies inside the sandbox's memory, not merely inside its address window")
+        elif q.status == "abort":
+            ctx.require(q, z3.Not(inside), "aborts only for an address outside the sandbox's memory")
+    ctx.only(paths, "ret", "abort")
+    ctx.expect(paths, ret=1, abort=1)
+
+
 def jobs(tier, seed):
     out = []
     backends = [("B32", 32)] + ([("B16", 16)] if tier == "thorough" else [])
@@ -93,6 +115,8 @@ def jobs(tier, seed):
             chks = [dict(name="%s %s %s" % (sbx, kind, tag), fn=check_entry, kw=dict(kind=kind, tag=tag, log=log))
                     for tag in grp for kind in ("assign", "accept", "assignvol")]
             out.append(Job("C02_%s_%d" % (sbx, gi), src, chks))
+    ssrc = '#include "verif_sandbox.hpp"\nusing S = B32S;\n#include "C03_small.inc"\n'
+    out.append(Job("C02_B32S", ssrc, [dict(name="B32S " + k, fn=check_small, kw=dict(k=k)) for k in ("k_small_accept", "k_small_assign", "k_small_assignvol")], native=False))
     for k in ("k_bm_assign", "k_bm_accept", "k_bm_assignvol"):
         out.append(Job("C02_BM_" + k, '#include "C02_bm.inc"\n', [dict(name="BM " + k, fn=check_bm, kw=dict(k=k))], native=False))
     return out
